@@ -231,6 +231,80 @@ def _check_circuit(i):
     return True, "ok"
 
 
+def _pair_pool():
+    """gates that share one parameter tuple and differ only in what the name does not show (every controlled gate is called "Control")"""
+    import sympy
+    from orquestra.quantum.circuits import RX, RY, PHASE, CPHASE, XX
+    th = sympy.Symbol("theta")
+    out = []
+    for mk in (RX, RY, PHASE):
+        g = mk(th)
+        out += [g, g.controlled(1), g.controlled(2), g.dagger, g.controlled(1).dagger, g.dagger.controlled(1)]
+    for mk in (CPHASE, XX):
+        g = mk(th)
+        out += [g, g.controlled(1), g.dagger]
+    return out
+
+
+def _check_pair(case):
+    """Circuit.bind == binding each operation with the same map, for two ADJACENT (and two separated) operations taken from the pool"""
+    import sympy
+    from orquestra.quantum.circuits import Circuit, H
+    i, j = case
+    pool = _pair_pool()
+    g1, g2 = pool[i], pool[j]
+    th = sympy.Symbol("theta")
+    for mp in ({th: 0.4}, {th: sympy.Symbol("phi") / 2}, {sympy.Symbol("other"): 1.0}):
+        for sep in (False, True):
+            ops = [g1(*range(g1.num_qubits))] + ([H(0)] if sep else []) + [g2(*range(g2.num_qubits))] + [g1(*reversed(range(g1.num_qubits)))]
+            c = Circuit(ops, n_qubits=4)
+            b = c.bind(mp)
+            want = [o.bind(mp) for o in ops]
+            if len(b.operations) != len(want) or any(x != y or str(x) != str(y) or x.gate.num_qubits != y.gate.num_qubits for x, y in zip(b.operations, want)):
+                return False, f"Circuit.bind({mp}) of {c} gives {b.operations}, binding each operation gives {want}"
+    return True, "ok"
+
+
+def _placement_gates():
+    import sympy
+    from orquestra.quantum.circuits import RX, RY, U3, MS, CPHASE, XY, CustomGateDefinition
+    a, b = sympy.symbols("a b")
+    cust = CustomGateDefinition("c06_ph2", sympy.Matrix([[1, 0, 0, 0], [0, sympy.exp(sympy.I * a), 0, 0], [0, 0, sympy.cos(b), -sympy.sin(b)], [0, 0, sympy.sin(b), sympy.cos(b)]]), (a, b))
+    return [RX(a).controlled(1), U3(a, b, a + b).controlled(1), MS(a, b), cust(a, b), XY(a), CPHASE(b).dagger, RY(a).controlled(2), RX(b).dagger.controlled(1), CPHASE(a).controlled(1), cust(b, a).controlled(1)]
+
+
+def _placements():
+    import itertools
+    for gi, g in enumerate(_placement_gates()):
+        k = g.num_qubits
+        for n in (k, k + 1):
+            for qs in itertools.permutations(range(n), k):
+                if n == k or (gi % 2 == 0 and qs[0] > qs[-1]) or (gi % 2 == 1 and qs[0] < qs[-1]):
+                    yield (gi, n, qs)
+
+
+def _check_placement(case):
+    """a symbolic gate on every ordered qubit tuple of a register exactly as wide as the gate (and one wider): the library's symbolic circuit matrix with
+    values substituted == the matrix of the bound circuit == the gate's matrix at those values placed on the named qubits"""
+    import numpy as np
+    import sympy
+    from orquestra.quantum.circuits import Circuit
+    from vfw import rcheck
+    gi, n, qs = case
+    g = _placement_gates()[gi]
+    a, b = sympy.symbols("a b")
+    vals = {a: 0.37, b: -1.21}
+    c = Circuit([g(*qs)], n_qubits=n)
+    want = rcheck.embed(rcheck.npmat(g.matrix.subs(vals)), list(qs), n)
+    sym = rcheck.npmat(sympy.Matrix(c.to_unitary()).subs(vals))
+    num = rcheck.npmat(c.bind(vals).to_unitary())
+    if not np.allclose(sym, want, atol=1e-9):
+        return False, f"{g} on qubits {qs} of {n}: the symbolic circuit matrix with {vals} substituted is not the gate matrix on those qubits"
+    if not np.allclose(num, want, atol=1e-9):
+        return False, f"{g} on qubits {qs} of {n}: the matrix of the bound circuit is not the gate matrix on those qubits"
+    return True, "ok"
+
+
 def build(tier, seed):
     obs = []
     fb = vprop.enum_ob("x", [], lambda: range(1), _check_circuit, "").run
@@ -262,4 +336,12 @@ def build(tier, seed):
     obs.append(vprop.enum_ob("C06.circuit.enum", [C + ":Circuit.bind", C + ":Circuit.free_symbols", G + ":Power.bind", G + ":Exponential.bind"], lambda: range(1), _check_circuit,
                              "bounded: circuit free symbols in first-appearance order, partial/total/superfluous maps, width kept (also symbol-free circuits with idle qubits), "
                              "non-gate operations, power / exponential refuse with NotImplementedError, bound summation variables are not free symbols", exhaustive=False))
+    import itertools
+    L = len(_pair_pool())
+    obs.append(vprop.enum_ob("C06.bind_each.enum", [C + ":Circuit.bind", G + ":GateOperation.bind", G + ":ControlledGate.bind", G + ":Dagger.bind"], lambda: itertools.product(range(L), repeat=2), _check_pair,
+                             "bounded: every ordered pair of 24 gates that share one parameter tuple and differ only in the wrapped gate / number of controls / dagger, adjacent and separated, "
+                             "3 kinds of map: Circuit.bind is operation-wise binding", timeout=900))
+    obs.append(vprop.enum_ob("C06.symbolic_placements.enum", [C + ":Circuit.to_unitary", G + ":GateOperation.lifted_matrix", C + ":Circuit.bind"], _placements, _check_placement,
+                             "bounded: 10 symbolic multi-qubit gates (controlled, daggered, custom, asymmetric) on every ordered qubit tuple of a register exactly as wide as the gate and on the "
+                             "descending / ascending tuples of a register one wider: symbolic circuit matrix then substitute == bind then evaluate == definition", timeout=900))
     return obs
